@@ -147,6 +147,13 @@ class Tr:
 
     # ---- expressions
     def expr(self, node, env):
+        if isinstance(node, ast.Attribute):
+            on = self.out_target(node)
+            if on is not None and on in env:
+                v = env[on]
+                if isinstance(v, Poison):
+                    raise Untranslatable("depends on %s (%s)" % (on, v.why))
+                return v
         for pat, coq, ty in self.atoms:
             b = {}
             if _match(pat, node, b):
@@ -440,6 +447,10 @@ class Tr:
             for n in ast.walk(s):
                 if isinstance(n, ast.Name) and isinstance(n.ctx, ast.Store):
                     out.add(n.id)
+                elif isinstance(n, ast.Attribute) and isinstance(n.ctx, ast.Store):
+                    on = self.out_target(n)
+                    if on is not None:
+                        out.add(on)
         return out
 
     def out_target(self, tgt):
@@ -463,6 +474,8 @@ class Tr:
 
     def block(self, stmts, env, kind, target=None):
         if not stmts:
+            if kind == "raises":
+                return "false", B
             if kind == "local":
                 v = env.get(target)
                 if v is None:
@@ -493,12 +506,16 @@ class Tr:
         if isinstance(s, ast.Pass):
             return K(env)
         if isinstance(s, ast.Return):
+            if kind == "raises":
+                return "false", B
             if kind == "local":
                 return BOTTOM
             if s.value is None:
                 return self.block([], env, kind, target)
             return self.expr(s.value, env)
         if isinstance(s, ast.Raise):
+            if kind == "raises":
+                return "true", B
             return BOTTOM
         if isinstance(s, ast.With):
             return self.block(list(s.body) + rest, env, kind, target)
@@ -523,7 +540,7 @@ class Tr:
                 try:
                     e, t = self.expr(val, env)
                 except Untranslatable as ex:
-                    if kind == "local":
+                    if kind in ("local", "raises"):
                         env2 = dict(env); env2[var] = Poison(str(ex))
                         return K(env2)
                     raise
@@ -549,7 +566,7 @@ class Tr:
                                    lambda e: self.block(list(s.body) + rest, e, kind, target),
                                    lambda e: self.block(list(s.orelse) + rest, e, kind, target))
             except Untranslatable as ex:
-                if kind != "local":
+                if kind not in ("local", "raises"):
                     raise
                 # the test (or a branch) is outside the subset: every name the statement assigns becomes unknown
                 if not self._test_ok(s.test, env):
@@ -558,6 +575,13 @@ class Tr:
                         env2[n] = Poison("assigned under a condition outside the supported subset (%s)" % ex)
                     return K(env2)
                 raise
+        if isinstance(s, ast.For) and kind == "raises":
+            env2 = dict(env)
+            for n in self.assigned([s]):
+                env2[n] = Poison("assigned in a loop")
+            if any(isinstance(n, ast.Raise) for n in ast.walk(s)):
+                raise Untranslatable("raise inside a loop")
+            return K(env2)
         if isinstance(s, ast.For) and kind == "local":
             # descend into the loop only if the target variable's last assignment is inside it
             if target in self.assigned([s]) and target not in self.assigned(rest):
@@ -575,7 +599,7 @@ class Tr:
             for n in self.assigned([s]):
                 env2[n] = Poison("assigned in a loop")
             return K(env2)
-        if kind == "local":
+        if kind in ("local", "raises"):
             if isinstance(s, (ast.Expr, ast.Assert, ast.Import, ast.ImportFrom, ast.Delete, ast.Global, ast.Nonlocal)):
                 return K(env)
             env2 = dict(env)
@@ -599,7 +623,7 @@ class Tr:
             return False
 
     def _poison_or_fail(self, tgts, why, env, kind, K):
-        if kind != "local":
+        if kind not in ("local", "raises"):
             raise Untranslatable(why)
         env2 = dict(env)
         for t in tgts:
@@ -648,6 +672,20 @@ def translate_kernel(repo, spec):
         tree = ast.parse(open(path).read())
     except (OSError, SyntaxError) as ex:
         raise Untranslatable("cannot parse %s: %s" % (spec["file"], ex))
+    if spec.get("kind") == "classconst":
+        cls, attr = spec["func"].rsplit(".", 1)
+        body = tree.body
+        for p in cls.split("."):
+            nxt = [n for n in body if isinstance(n, ast.ClassDef) and n.name == p]
+            if not nxt:
+                raise Untranslatable("class %s not found" % cls)
+            body = nxt[0].body
+        vals = [n.value for n in body if isinstance(n, ast.Assign) and len(n.targets) == 1 and isinstance(n.targets[0], ast.Name) and n.targets[0].id == attr]
+        if len(vals) != 1:
+            raise Untranslatable("%d class-level assignments of %s" % (len(vals), attr))
+        tr = Tr(spec, {})
+        e, t = tr.expr(vals[0], {})
+        return "Definition gen_%s : %s :=\n  %s." % (spec["name"], cty(t), e), t
     fn = find_function(tree, spec["func"])
     if fn is None:
         raise Untranslatable("function %s not found in %s" % (spec["func"], spec["file"]))
